@@ -51,7 +51,9 @@ func (f *Subseq) Call(s *slip.Scope, args slip.List, depth int) (result slip.Obj
 	start, end, seq := f.getArgs(s, args, depth)
 	switch ta := seq.(type) {
 	case slip.List:
-		result = ta[start:end]
+		sub := make(slip.List, end-start)
+		copy(sub, ta[start:end])
+		result = sub
 	case slip.String:
 		ra := []rune(ta)
 		result = slip.String(ra[start:end])
